@@ -475,7 +475,7 @@ impl CKKSEncoder {
 
         value *= scale;
         
-        let coeff_bit_count = value.abs().log2() as usize + 2;
+        let coeff_bit_count = (value.abs().log2() as usize).saturating_add(2);
         if coeff_bit_count >= context_data.total_coeff_modulus_bit_count() {
             panic!("[Invalid argument] Value is too large to encode.");
         }
